@@ -259,6 +259,19 @@ def rules_parse_loop(src, rep, prefix):
                "parse(%r) gives %s, expected %s: text pieces and updates must come out complete and in order" % (text, got, want),
                witness={"input": text})
         rep.case(True)
-    r = it.call1("escseqparse", "parse", "a" + ESC + "[90mb")
-    rep.ob(prefix + "-parse-unsupported-raises-ValueError", f.where(), f.scope, "parse('a ESC[90m b')", r == ("raise", "ValueError"),
-           "an unsupported SGR sequence must make parse() raise ValueError (so that from_str falls back); got %s" % (r,))
+    # a sequence the READER rejects (which codes it supports is its own business: the code is picked from what token_type says)
+    from ..models import Reader
+    reader = Reader(src, it)
+    rejected = None
+    for code in (90, 20, 21, 6, 8, 9, 10, 26, 50, 60, 99):
+        try:
+            if reader.token("m", [code]) == ("raise", "ValueError"):
+                rejected = code
+                break
+        except Exception:
+            continue
+    if rejected is not None:
+        r = it.call1("escseqparse", "parse", "a" + ESC + "[%dmb" % rejected)
+        rep.ob(prefix + "-parse-unsupported-raises-ValueError", f.where(), f.scope, "parse('a ESC[<code the reader rejects>m b')", r == ("raise", "ValueError"),
+               "token_type raises ValueError for SGR code %d; parse('a ESC[%dm b') must let exactly that ValueError out (so that from_str falls back); got %s"
+               % (rejected, rejected, r))
